@@ -79,9 +79,10 @@ def Rodas(dae: nDAE,
     t = t0
     hmin = 16 * np.spacing(t0)
     uround = np.spacing(1.0)
-    T = np.zeros((10001,))
+    nbuf = max(10001, len(tspan))  # dense output stores one row per requested node
+    T = np.zeros((nbuf,))
     T[nt] = t0
-    Y = np.zeros((10001, vsize))
+    Y = np.zeros((nbuf, vsize))
     y0 = DaeIc(dae, y0, t0, opt.rtol)  # check and modify initial values
     Y[0, :] = y0
 
@@ -298,7 +299,7 @@ def Rodas(dae: nDAE,
                 if opt.pbar:
                     pbar.update(T[nt] - T[nt - 1])
 
-            if nt == 10000:
+            if nt == 10000 and not dense_output:
                 warnings.warn("Time steps more than 10000! Rodas breaks. Try input a smaller tspan!")
                 done = True
 
